@@ -1,5 +1,5 @@
 (* Props/C11.v -- property theorems for C11 only. *)
-From LV Require Import Base FS FSFacts LayerShared LayerSharedFacts LayerSharedGone.
+From LV Require Import Base FS FSFacts LayerShared LayerSharedFacts LayerSharedGone LayerSharedTotal.
 From LVGen Require Import GenLayerShared.
 
 Theorem c11_tables :
@@ -52,6 +52,44 @@ Proof.
 Qed.
 Print Assumptions c11_delete_layer_tree_gone.
 
+(* remove_dir_recursively SUCCEEDS on every tree: permissions and symlinks INSIDE the tree never make
+   it fail (it chmods each directory before descending, unlinks links without following them);
+   what is needed lies outside the tree: the ancestors can be searched, the parent written *)
+Theorem c11_rdr_total :
+  forall fuel d s,
+    valid_path d -> d <> [] -> valid_fs s -> parent_closed s ->
+    searchable s d -> parent_wx s d ->
+    (exists m, pget d s = Some (Dir m)) \/ (exists t, pget d s = Some (Link t)) ->
+    deep_enough fuel d s ->
+    exists s', remove_dir_recursively rdr_checks_symlink fuel d s = (s', Ok tt).
+Proof. exact rdr_total. Qed.
+Print Assumptions c11_rdr_total.
+
+(* the fuel delete_layer passes is always enough *)
+Theorem c11_fuel_enough : forall s d, parent_closed s -> deep_enough (rdr_fuel s) d s.
+Proof. exact rdr_fuel_enough. Qed.
+Print Assumptions c11_fuel_enough.
+
+(* C11 complete for delete_layer: in a well-formed file system whose layers directory is reachable,
+   searchable and writable, for a layer path that is absent, a directory (with ANY tree below it) or
+   a symlink (to anything), and with <name>.toml / SBOM paths that are not directories: the call
+   SUCCEEDS, afterwards nothing at or below <layers>/<name> exists, and every path that is not the
+   layer's own is exactly as before. *)
+Theorem c11_delete_layer_complete :
+  forall layers n s,
+    valid_path layers -> valid_name n = true -> valid_fs s -> parent_closed s -> layers_ok s layers ->
+    (pget (layers ++ [n]) s = None \/ (exists m, pget (layers ++ [n]) s = Some (Dir m)) \/ (exists t, pget (layers ++ [n]) s = Some (Link t))) ->
+    (forall m, pget (layers ++ [toml_name n]) s <> Some (Dir m)) ->
+    (forall sx m, In sx sbom_suffixes -> pget (layers ++ [sbom_name n sx]) s <> Some (Dir m)) ->
+    exists s', delete_layer rdr_checks_symlink delete_layer_removes_sboms sbom_suffixes layers n s = (s', Ok tt) /\
+               (forall r, pget (layers ++ [n] ++ r) s' = None) /\
+               (forall q, owned sbom_suffixes layers n q = false -> pget q s' = pget q s).
+Proof.
+  intros layers n s Vl Vn Vf PC LO HL NDt NDs.
+  apply (delete_layer_complete sbom_suffixes layers n s Vl Vn); try assumption. repeat constructor.
+Qed.
+Print Assumptions c11_delete_layer_complete.
+
 (* delete_layer: only <layers>/<name>/**, <layers>/<name>.toml and the layer's SBOM files *)
 Theorem c11_outside_untouched :
   forall layers n s s' r,
@@ -93,3 +131,39 @@ Example c11_nonvacuous :
     [ ([], Dir 493); ([[108]], Dir 493); ([[108]; [121]], Dir 493); ([[108]; [121]; [102]], File 420 (Raw [7])) ] /\
   snd (delete_layer true true spec_sbom_suffixes [[108]] [120] s) = Ok tt.
 Proof. cbn zeta. split; [repeat constructor|]. split; [reflexivity|]. vm_compute. split; reflexivity. Qed.
+
+(* the hypotheses of c11_delete_layer_complete are satisfiable by a hostile layer: /l/x is a mode-000
+   directory holding a file, a nested read-only directory and a symlink leading out of the layer *)
+Definition ex_hostile : fs :=
+  [ ([], Dir 493); ([[108]], Dir 493); ([[108]; [120]], Dir 0);
+    ([[108]; [120]; [102]], File 0 (Raw [1]));
+    ([[108]; [120]; [100]], Dir 365); ([[108]; [120]; [100]; [103]], File 292 (Raw []));
+    ([[108]; [120]; [107]], Link [47; 101; 116; 99]);
+    ([[108]; [120; 46; 116; 111; 109; 108]], File 420 (Raw [])) ].
+
+Example c11_complete_nonvacuous :
+  valid_path [[108]] /\ valid_name [120] = true /\ valid_fs ex_hostile /\ parent_closed ex_hostile /\
+  layers_ok ex_hostile [[108]] /\ (exists m, pget [[108]; [120]] ex_hostile = Some (Dir m)) /\
+  exists s', delete_layer rdr_checks_symlink delete_layer_removes_sboms sbom_suffixes [[108]] [120] ex_hostile = (s', Ok tt) /\
+             pget [[108]; [120]] s' = None /\ pget [[108]] s' = Some (Dir 493).
+Proof.
+  split; [repeat constructor|]. split; [reflexivity|].
+  assert (Keys : forall q, pget q ex_hostile <> None ->
+            In q [[]; [[108]]; [[108]; [120]]; [[108]; [120]; [102]]; [[108]; [120]; [100]]; [[108]; [120]; [100]; [103]];
+                  [[108]; [120]; [107]]; [[108]; [120; 46; 116; 111; 109; 108]]]).
+  { intros q H. apply FSInv.in_keys_pget in H. exact H. }
+  split.
+  { intros q H. apply Keys in H. cbn in H. repeat (destruct H as [<-|H]; [repeat constructor|]). contradiction. }
+  split.
+  { intros q n H. apply Keys in H. cbn [In] in H.
+    assert (X : forall key, key = q ++ [n] -> key <> [] /\ q = removelast key).
+    { intros key E. split; [intros ->; destruct q; discriminate|rewrite E, removelast_last; reflexivity]. }
+    repeat (destruct H as [E|H]; [apply X in E as [NE ->]; try congruence; cbn; eexists; reflexivity|]).
+    contradiction. }
+  split.
+  { split.
+    - intros k Hk. destruct k as [|k]; [exists 493; split; reflexivity|cbn in Hk; lia].
+    - exists 493. repeat split; reflexivity. }
+  split; [eexists; reflexivity|].
+  eexists. split; [vm_compute; reflexivity|]. split; reflexivity.
+Qed.
